@@ -692,6 +692,12 @@ void QXmppOutgoingClient::handlePacketReceived(const QDomElement &nodeRecv)
     // if we receive any kind of data, stop the timeout timer
     d->pingManager.onDataReceived();
 
+    // white space keep-alive (RFC 6120, section 4.6.1): XmppSocket reports it as a null element so
+    // that the timeout timer is stopped; it is not an element any listener could accept or reject
+    if (nodeRecv.isNull()) {
+        return;
+    }
+
     auto index = d->listener.index();
 
     switch (visit(overloaded {
